@@ -9,7 +9,7 @@ from pathsum import ERR, NONE, OK, SOME, show_term, strip_sites
 
 RERUN_ON_CONFIGS = ("dfm", "std")
 LEVEL = "translation_validation"
-RULE_TEXT = ("C01-T: for every witness interface (hand-designed families + VERIF_SEED-generated declaration sets, all "
+RULE_TEXT = ("C01-W also: on every accepting path of the compound header parser the returned remainder is the input on which the header separator was tried and refused (the walk ends only where no level follows). C01-T: for every witness interface (hand-designed families + VERIF_SEED-generated declaration sets, all "
              "compiled through the real macro of the current tree, never run) the language of the emitted Node trie - "
              "every (spelling path, kind) -> handler - equals, as a finite map, the language computed by an independent "
              "oracle from the declarations (short/long/optional/query rule of the statement; standard commands iff "
@@ -408,6 +408,36 @@ def rule_W(ck, lib):
             ck.judge(okn and seen_none, "C01-W", "%s:child@%s:none-is-undefined-header" % (kind, n_child),
                      "unknown mnemonic leaves the parser with UndefinedHeader", "unknown mnemonic does not leave the header parser with Err(UndefinedHeader)", site)
     ck.floor("C01-W", "Node::child call sites in the header parsers", n_child, 2)
+    # the walk ends only where no further level follows: on every accepting path of the compound header parser the
+    # returned remainder is the very input on which the header separator was tried and did not match. A walk that stops
+    # for another reason (a node without children, a depth limit) leaves `:LEVEL` to the caller, which reports a syntax
+    # error for it, not the undefined header it is.
+    fn = "microscpi::parser::compound_command_program_header"
+    f_ = sk.fns.get(fn)
+    n_exit = 0
+    if f_ and f_["exits"]:
+        ps = f_["ps"]
+        seps = set()
+        for x in f_["exits"]:
+            apps = sk.apps_on_path(x, ps)
+            # the separator recogniser: the parser tried directly in front of every program_mnemonic but the first
+            for j, (pid, inp, t, oc) in enumerate(apps):
+                if pid == ("fn", "microscpi::parser::program_mnemonic") and j > 0 and apps[j - 1][0] and apps[j - 1][0][0] in ("fn", "tag", "optional"):
+                    q = apps[j - 1][0]
+                    seps.add(q[1] if q[0] == "optional" else q)
+        for x in f_["exits"]:
+            r = sk.exit_result(x)
+            if not r or r[0][0] != "ok" or len(r) != 1:
+                continue
+            n_exit += 1
+            rem = strip_sites(sk.val_of(sk.rem_of(r[0][1])))
+            apps = sk.apps_on_path(x, ps)
+            tried = [(pid, oc) for (pid, inp, t, oc) in apps if strip_sites(sk.val_of(inp)) == rem and (pid in seps or (pid and pid[0] == "optional" and pid[1] in seps))]
+            ok = any(oc is False for (pid, oc) in tried)
+            ck.judge(ok, "C01-W", "compound:accept#%d:ends-where-no-level-follows" % n_exit,
+                     "the header ends where the separator does not match", "the header walk stops although the separator was not tried (and refused) on the remainder it returns: a further level is left unread and reported as a syntax error instead of an undefined header",
+                     data=pathsum.show_exit(x)[:1200])
+        ck.floor("C01-W", "accepting paths of the compound header parser", n_exit, 1)
 
 
 # ------------------------------------------------------------------ C01-S: the macro's own spelling rule
